@@ -1,18 +1,349 @@
 //! C04 — a tick patch replays to exactly the state the tick produced.
-//! Real code: `tick_patch::diff_state`, `apply_ops_to_state`, `WarpTickPatchV1::new/apply_to_state`,
-//! `compute_state_root` (through the `echo_verif::state` seams).
+//! Real code: `tick_patch::diff_state`, `apply_ops_to_state`, `WarpTickPatchV1::new/apply_to_state/
+//! digest/validate_digest`, `WorldlineTickPatchV1::apply_to_worldline_state`, `Engine::commit_with_receipt`
+//! / `jump_to_tick`, `compute_state_root` (through the `echo_verif::state` seams).
+//!
+//! Streams (output grammar; `<res>` := `ok <state>` | `err <class> partial <state>` where `partial` is the
+//! state left in the `&mut` target after the failed in-place application):
+//!   C04.pair  <stateA> <stateB>                 -> `ops <ops> ; digest <D> ; <res>`
+//!   C04.apply <state> <n ops…>                   -> `<res>`
+//!   C04.patch <policy> <rulepack> <1|2> <n slots…> <n slots…> <n ops…>
+//!                                                -> `ops <canon ops> ; ins <n slots…> ; outs <n slots…> ; digest <D>`
+//!   C04.tick  <C01.tick case>                    -> `tick ok ; patch <ops> ; digest <D> ; post <state> ; replay <res>`
+//!                                                 | `tick <err …|panic …>`
+//! `<D>` in pair/tick = digest of `WarpTickPatchV1::new(0,[0;32],Committed,[],[],ops)`.
 use crate::graphio::*;
+use crate::interp::{self, RULE_A, RULE_B};
 use crate::prng::Rng;
-use crate::util::Toks;
+use crate::util::{hex, small_id, Toks};
 use crate::{OracleOut, Stream, Tier};
 use warp_core::echo_verif::state as hook;
-use warp_core::{NodeKey, TickCommitStatus, WarpOp, WarpTickPatchV1};
+use warp_core::{
+    scope_hash, ApplyResult, EdgeKey, EngineBuilder, GlobalTick, NodeId, NodeKey, SchedulerKind, SlotId,
+    TickCommitStatus, TickPatchError, WarpId, WarpOp, WarpState, WarpTickPatchV1, WorldlineState,
+    WorldlineTickHeaderV1, WorldlineTickPatchV1,
+};
 
 pub fn streams() -> Vec<Stream> {
     vec![
         Stream { name: "C04.pair", gen: gen_pair, imp: imp_pair, oracle: oracle_pair },
         Stream { name: "C04.apply", gen: gen_apply, imp: imp_apply, oracle: oracle_apply },
+        Stream { name: "C04.patch", gen: gen_patch, imp: imp_patch, oracle: oracle_patch },
+        Stream { name: "C04.tick", gen: gen_tick, imp: imp_tick, oracle: oracle_tick },
     ]
+}
+
+fn bare_patch(ops: &[WarpOp]) -> WarpTickPatchV1 {
+    WarpTickPatchV1::new(0, [0u8; 32], TickCommitStatus::Committed, vec![], vec![], ops.to_vec())
+}
+
+fn res_str(res: &Result<(), TickPatchError>, target: &WarpState) -> String {
+    match res {
+        Ok(()) => format!("ok {}", state_str(target)),
+        Err(e) => format!("err {} partial {}", err_class(e), state_str(target)),
+    }
+}
+
+fn op_tag(op: &WarpOp) -> &'static str {
+    match op {
+        WarpOp::OpenPortal { .. } => "op:OP",
+        WarpOp::UpsertWarpInstance { .. } => "op:UI",
+        WarpOp::DeleteWarpInstance { .. } => "op:DI",
+        WarpOp::UpsertNode { .. } => "op:UN",
+        WarpOp::DeleteNode { .. } => "op:DN",
+        WarpOp::UpsertEdge { .. } => "op:UE",
+        WarpOp::DeleteEdge { .. } => "op:DE",
+        WarpOp::SetAttachment { .. } => "op:SA",
+    }
+}
+
+// ------------------------------------------------------------------ in-place application oracle
+//
+// "A failed application is never reported as success", as the real code has it (apply is IN PLACE):
+//   (i)  Err  => the target equals the state after the ops before the first failing op (a prefix), the
+//                failing op itself having changed nothing;
+//   (ii) Ok   => every op individually succeeded and the target is the composition of all single steps.
+// The per-op step is observed through the real `apply_ops_to_state` on one-element slices (the state
+// left in the target is the op's effect whether or not the trailing portal validation complains).
+// A single step that returns Err AND leaves the state unchanged is a *candidate* failing op; it is a
+// *definite* one when the op/error cannot come from the portal validation (UpsertNode/UpsertEdge never
+// trigger it; NodeNotIsolated / PortalInitRequired are never returned by it).
+
+/// Independent per-op specification of `apply_op_to_state` for the five skeleton/attachment ops
+/// (pre-condition => must fail and change nothing; applied => post-condition on the touched location).
+fn check_step(fails: &mut Vec<(String, String)>, before: &WarpState, op: &WarpOp, res_ok: bool, changed: bool, after: &WarpState) {
+    use warp_core::AttachmentOwner;
+    let applied = res_ok || changed;
+    let mut must_fail: Option<&str> = None;
+    let mut post_ok = true;
+    match op {
+        WarpOp::UpsertNode { node, record } => {
+            if before.store(&node.warp_id).is_none() {
+                must_fail = Some("missing warp");
+            } else if applied {
+                post_ok = after.store(&node.warp_id).and_then(|g| g.node(&node.local_id)) == Some(record);
+            }
+        }
+        WarpOp::DeleteNode { node } => match before.store(&node.warp_id) {
+            None => must_fail = Some("missing warp"),
+            Some(g) => {
+                if g.node(&node.local_id).is_none() {
+                    must_fail = Some("missing node");
+                } else if g.iter_edges().any(|(_, es)| es.iter().any(|e| e.from == node.local_id || e.to == node.local_id)) {
+                    must_fail = Some("node has incident edges");
+                } else if applied {
+                    post_ok = after.store(&node.warp_id).is_some_and(|g| g.node(&node.local_id).is_none() && g.node_attachment(&node.local_id).is_none());
+                }
+            }
+        },
+        WarpOp::UpsertEdge { warp_id, record } => {
+            if before.store(warp_id).is_none() {
+                must_fail = Some("missing warp");
+            } else if applied {
+                post_ok = after.store(warp_id).is_some_and(|g| {
+                    let hits: Vec<_> = g.iter_edges().flat_map(|(f, es)| es.iter().map(move |e| (*f, e))).filter(|(_, e)| e.id == record.id).collect();
+                    hits.len() == 1 && hits[0].0 == record.from && hits[0].1 == record
+                });
+            }
+        }
+        WarpOp::DeleteEdge { warp_id, from, edge_id } => match before.store(warp_id) {
+            None => must_fail = Some("missing warp"),
+            Some(g) => {
+                if !g.edges_from(from).any(|e| e.id == *edge_id) {
+                    must_fail = Some("no such edge under that source");
+                } else if applied {
+                    post_ok = after.store(warp_id).is_some_and(|g| !g.has_edge(edge_id) && g.edge_attachment(edge_id).is_none());
+                }
+            }
+        },
+        WarpOp::SetAttachment { key, value } => {
+            let (w, exists_before) = match key.owner {
+                AttachmentOwner::Node(n) => (n.warp_id, before.store(&n.warp_id).map(|g| g.node(&n.local_id).is_some())),
+                AttachmentOwner::Edge(e) => (e.warp_id, before.store(&e.warp_id).map(|g| g.has_edge(&e.local_id))),
+            };
+            if !key.is_plane_valid() {
+                must_fail = Some("invalid plane");
+            } else if exists_before.is_none() {
+                must_fail = Some("missing warp");
+            } else if exists_before == Some(false) {
+                must_fail = Some("missing owner");
+            } else if applied {
+                let got = after.store(&w).and_then(|g| match key.owner {
+                    AttachmentOwner::Node(n) => g.node_attachment(&n.local_id),
+                    AttachmentOwner::Edge(e) => g.edge_attachment(&e.local_id),
+                });
+                post_ok = got == value.as_ref();
+            }
+        }
+        _ => {}
+    }
+    if let Some(why) = must_fail {
+        if applied {
+            fails.push((format!("C04.apply-step.accepted-invalid-op.{}", &op_tag(op)[3..]), format!("{} must be rejected ({why}) but was applied / returned Ok", clip(&op_str(op)))));
+        }
+    } else if !post_ok {
+        fails.push((format!("C04.apply-step.wrong-effect.{}", &op_tag(op)[3..]), format!("{} applied, but the touched location does not hold the op's value afterwards", clip(&op_str(op)))));
+    }
+}
+
+struct Chain {
+    /// failures of the per-op specification
+    spec_fails: Vec<(String, String)>,
+    /// dumps T_0 … T_n
+    t: Vec<String>,
+    /// candidate failing indices (step i: Err and T_{i+1} == T_i)
+    stuck: Vec<usize>,
+    /// first definite failing index
+    definite: Option<usize>,
+}
+
+fn chain(a: &WarpState, ops: &[WarpOp]) -> Chain {
+    let mut cur = a.clone();
+    let mut t = vec![state_str(&cur)];
+    let mut stuck = Vec::new();
+    let mut definite = None;
+    let mut spec_fails = Vec::new();
+    for (i, op) in ops.iter().enumerate() {
+        let before = cur.clone();
+        let r = hook::apply_ops(&mut cur, std::slice::from_ref(op));
+        let s = state_str(&cur);
+        check_step(&mut spec_fails, &before, op, r.is_ok(), s != t[i], &cur);
+        if let Err(e) = &r {
+            if s == t[i] {
+                stuck.push(i);
+                let def = matches!(op, WarpOp::UpsertNode { .. } | WarpOp::UpsertEdge { .. })
+                    || matches!(e, TickPatchError::NodeNotIsolated(_) | TickPatchError::PortalInitRequired);
+                if def && definite.is_none() {
+                    definite = Some(i);
+                }
+            }
+        }
+        t.push(s);
+    }
+    Chain { spec_fails, t, stuck, definite }
+}
+
+fn check_inplace(o: &mut OracleOut, whre: &str, a: &WarpState, ops: &[WarpOp], res: &Result<(), TickPatchError>, target: &WarpState) {
+    let mut ch = chain(a, ops);
+    o.fails.append(&mut ch.spec_fails);
+    let s = state_str(target);
+    let n = ops.len();
+    match res {
+        Ok(()) => {
+            if let Some(d) = ch.definite {
+                o.fails.push((format!("C04.atomicity.{whre}.ok-despite-failed-op"), format!("application returned Ok although op #{d} ({}) fails on the state the ops before it produce", op_str(&ops[d]))));
+            }
+            if s != ch.t[n] {
+                o.fails.push((format!("C04.atomicity.{whre}.ok-state-not-composition"), format!("Ok, but the target is not the composition of the single-op steps: got [{}] want [{}]", clip(&s), clip(&ch.t[n]))));
+            }
+        }
+        Err(e) => {
+            let limit = ch.definite.unwrap_or(n);
+            let mut allowed: Vec<usize> = ch.stuck.iter().copied().filter(|k| *k <= limit).collect();
+            if ch.definite.is_none() {
+                allowed.push(n); // every op applied, the trailing portal validation failed
+            }
+            if !allowed.iter().any(|k| ch.t[*k] == s) {
+                o.fails.push((format!("C04.atomicity.{whre}.partial-not-prefix"), format!("Err({}) but the target is not the state after the ops before a failing op: got [{}]", err_class(e), clip(&s))));
+            }
+            o.tags.push(if s == ch.t[0] { "clean-on-error".into() } else { "partial-on-error".into() });
+            if s == ch.t[n] && n > 0 && ch.stuck.is_empty() {
+                o.tags.push("err-at-final-validation".into());
+            }
+        }
+    }
+}
+
+/// The same ops through the other public surfaces: `WarpTickPatchV1::apply_to_state` and
+/// `WorldlineTickPatchV1::apply_to_worldline_state` (when the state has a unique parentless root).
+/// They must report the same result and leave the same target; after an Err the worldline object must
+/// not look advanced (tick / history / snapshot).
+fn check_surfaces(o: &mut OracleOut, a: &WarpState, canon_ops: &[WarpOp], res: &Result<(), TickPatchError>, target: &WarpState) {
+    let patch = bare_patch(canon_ops);
+    let mut c2 = a.clone();
+    let res2 = patch.apply_to_state(&mut c2);
+    let same_err = match (res, &res2) {
+        (Ok(()), Ok(())) => true,
+        (Err(x), Err(y)) => err_class(x) == err_class(y),
+        _ => false,
+    };
+    if !same_err || state_str(&c2) != state_str(target) {
+        o.fails.push(("C04.patch-new-changes-diff".into(), "WarpTickPatchV1::new(ops).apply_to_state disagrees with applying the canonical ops directly".into()));
+    }
+    // worldline surface
+    let roots: Vec<NodeKey> = hook::instances(a).iter().filter(|i| i.parent.is_none()).map(|i| NodeKey { warp_id: i.warp_id, local_id: i.root_node }).collect();
+    if roots.len() == 1 {
+        if let Ok(mut ws) = WorldlineState::new(a.clone(), roots[0]) {
+            let wp = WorldlineTickPatchV1 {
+                header: WorldlineTickHeaderV1 { commit_global_tick: GlobalTick::from_raw(1), policy_id: 0, rule_pack_id: [0u8; 32], plan_digest: [0u8; 32], decision_digest: [0u8; 32], rewrites_digest: [0u8; 32] },
+                warp_id: roots[0].warp_id,
+                ops: canon_ops.to_vec(),
+                in_slots: vec![],
+                out_slots: vec![],
+                patch_digest: patch.digest(),
+            };
+            let tick0 = ws.current_tick();
+            let r3 = wp.apply_to_worldline_state(&mut ws);
+            o.tags.push("worldline-surface".into());
+            if r3.is_ok() != res.is_ok() || state_str(ws.warp_state()) != state_str(target) {
+                o.fails.push(("C04.atomicity.worldline.result-differs".into(), "apply_to_worldline_state disagrees with apply_ops_to_state on result / target state".into()));
+            }
+            if r3.is_err() && (ws.current_tick() != tick0 || !ws.tick_history().is_empty() || ws.last_snapshot().is_some()) {
+                o.fails.push(("C04.atomicity.worldline.advanced-on-error".into(), "apply_to_worldline_state returned Err but the worldline looks advanced (tick/history/snapshot)".into()));
+            }
+            if state_str(ws.initial_state()) != state_str(a) {
+                o.fails.push(("C04.atomicity.worldline.initial-state-touched".into(), "apply_to_worldline_state modified the preserved initial state".into()));
+            }
+        }
+    }
+}
+
+/// `compute_state_root`, which panics on a dangling portal reachable from the root.
+fn root_of(st: &WarpState, key: &NodeKey) -> Option<[u8; 32]> {
+    std::panic::catch_unwind(std::panic::AssertUnwindSafe(|| hook::state_root(st, key))).ok()
+}
+
+/// "Opening portals onto free slots of existing owners replays": b = a + new leaf child instances, each
+/// hanging off a slot whose owner exists in a and is empty in a; nothing else differs. For such pairs
+/// (both well-formed) the replay MUST succeed. Returns true when (a, b) is in that class.
+fn pure_portal_growth(a: &WarpState, b: &WarpState) -> bool {
+    use warp_core::{AttachmentOwner, AttachmentValue};
+    let ia = hook::instances(a);
+    let ib = hook::instances(b);
+    let new: Vec<_> = ib.iter().filter(|i| !ia.iter().any(|j| j.warp_id == i.warp_id)).collect();
+    if new.is_empty() || ia.len() + new.len() != ib.len() {
+        return false;
+    }
+    // b restricted to a's warps, with the Descend slots of the new children cleared, must dump like a
+    let mut reduced = WarpState::new();
+    for i in ib.iter().filter(|i| ia.iter().any(|j| j.warp_id == i.warp_id)) {
+        let Some(g) = b.store(&i.warp_id) else { return false };
+        hook::upsert_instance(&mut reduced, i.clone(), g.clone());
+    }
+    for n in &new {
+        let Some(key) = n.parent else { return false };
+        let (w, in_a_free) = match key.owner {
+            AttachmentOwner::Node(k) => (k.warp_id, a.store(&k.warp_id).is_some_and(|g| g.node(&k.local_id).is_some() && g.node_attachment(&k.local_id).is_none())),
+            AttachmentOwner::Edge(k) => (k.warp_id, a.store(&k.warp_id).is_some_and(|g| g.has_edge(&k.local_id) && g.edge_attachment(&k.local_id).is_none())),
+        };
+        if !key.is_plane_valid() || !in_a_free {
+            return false;
+        }
+        let Some(inst) = ib.iter().find(|i| i.warp_id == w) else { return false };
+        let Some(g) = reduced.store(&w) else { return false };
+        let mut g = g.clone();
+        let cur = match key.owner {
+            AttachmentOwner::Node(k) => g.node_attachment(&k.local_id).cloned(),
+            AttachmentOwner::Edge(k) => g.edge_attachment(&k.local_id).cloned(),
+        };
+        if cur != Some(AttachmentValue::Descend(n.warp_id)) {
+            return false;
+        }
+        match key.owner {
+            AttachmentOwner::Node(k) => g.set_node_attachment(k.local_id, None),
+            AttachmentOwner::Edge(k) => g.set_edge_attachment(k.local_id, None),
+        }
+        hook::upsert_instance(&mut reduced, inst.clone(), g);
+    }
+    state_str(&reduced) == state_str(a) && well_formed(a) && well_formed(b)
+}
+
+/// Portal invariants + referential integrity, decided by the REAL validator: a no-op
+/// `UpsertWarpInstance` of an existing instance triggers `validate_portal_invariants`.
+fn well_formed(st: &WarpState) -> bool {
+    let insts = hook::instances(st);
+    let stores = hook::stores(st);
+    if insts.len() != stores.len() {
+        return false;
+    }
+    for (_, g) in &stores {
+        for (_, es) in g.iter_edges() {
+            for e in es {
+                if g.node(&e.from).is_none() || g.node(&e.to).is_none() {
+                    return false;
+                }
+            }
+        }
+    }
+    for i in &insts {
+        match st.store(&i.warp_id) {
+            Some(g) if g.node(&i.root_node).is_some() => {}
+            _ => return false,
+        }
+    }
+    match insts.first() {
+        None => true,
+        Some(i) => {
+            let mut c = st.clone();
+            hook::apply_ops(&mut c, &[WarpOp::UpsertWarpInstance { instance: i.clone() }]).is_ok()
+        }
+    }
+}
+
+fn clip(s: &str) -> String {
+    // keep failure texts readable: drop leading zeros of ids
+    let short: Vec<String> = s.split(' ').map(|t| if t.len() == 64 { t.trim_start_matches('0').to_string() } else { t.to_string() }).collect();
+    short.join(" ").chars().take(600).collect()
 }
 
 // ------------------------------------------------------------------ C04.pair  <stateA> <stateB>
@@ -24,12 +355,10 @@ fn imp_pair(t: &mut Toks) -> Result<String, String> {
         return Err("trailing tokens".into());
     }
     let ops = hook::diff_state(&a, &b);
+    let digest = bare_patch(&ops).digest();
     let mut c = a.clone();
     let res = hook::apply_ops(&mut c, &ops);
-    Ok(match res {
-        Ok(()) => format!("ops {} ; ok {}", ops_str(&ops), state_str(&c)),
-        Err(e) => format!("ops {} ; err {}", ops_str(&ops), err_class(&e)),
-    })
+    Ok(format!("ops {} ; digest {} ; {}", ops_str(&ops), hex(&digest), res_str(&res, &c)))
 }
 
 fn oracle_pair(t: &mut Toks, _tier: Tier) -> Result<OracleOut, String> {
@@ -40,49 +369,62 @@ fn oracle_pair(t: &mut Toks, _tier: Tier) -> Result<OracleOut, String> {
     // (1) the diff as returned, applied to a clone of `a`
     let mut c = a.clone();
     let res = hook::apply_ops(&mut c, &ops);
-    // (2) the same through the public patch type (sort + dedupe + digest), as replay does
-    let patch = WarpTickPatchV1::new(0, [0u8; 32], TickCommitStatus::Committed, vec![], vec![], ops.clone());
-    let mut c2 = a.clone();
-    let res2 = patch.apply_to_state(&mut c2);
+    let patch = bare_patch(&ops);
     let want = state_str(&b);
     match &res {
         Ok(()) => {
             let got = state_str(&c);
             if got != want {
-                o.fails.push((format!("C04.replay-differs.{}", classify(&got, &want)), format!("apply(diff(a,b), a) returned Ok but the state differs from b: got [{got}] want [{want}]")));
+                o.fails.push((format!("C04.replay-differs.{}", classify(&got, &want)), format!("apply(diff(a,b), a) returned Ok but the state differs from b: got [{}] want [{}]", clip(&got), clip(&want))));
             } else {
                 // state roots from every instance root must agree as well
                 for inst in hook::instances(&b) {
                     let key = NodeKey { warp_id: inst.warp_id, local_id: inst.root_node };
-                    if hook::state_root(&c, &key) != hook::state_root(&b, &key) {
+                    let (rc, rb) = (root_of(&c, &key), root_of(&b, &key));
+                    if rc != rb {
                         o.fails.push(("C04.replay-root-differs".into(), "equal dumps but different state roots".into()));
+                    }
+                    if rc.is_none() {
+                        o.tags.push("state-root-panics(dangling-portal)".into());
                     }
                 }
             }
             o.tags.push("apply-ok".into());
         }
-        Err(e) => o.tags.push(format!("apply-err:{}", err_class(e))),
+        Err(e) => {
+            o.tags.push(format!("apply-err:{}", err_class(e)));
+            if well_formed(&a) && well_formed(&b) {
+                o.tags.push(format!("wf-pair-err:{}", err_class(e)));
+            }
+            if pure_portal_growth(&a, &b) {
+                o.fails.push((format!("C04.portal-open-not-replayable:{}", err_class(e)), format!("b = a + new child instances on free slots of existing owners, yet the diff {} does not replay", clip(&ops_str(&ops)))));
+            }
+        }
     }
-    if res.is_ok() != res2.is_ok() || (res.is_ok() && state_str(&c2) != state_str(&c)) {
-        o.fails.push(("C04.patch-new-changes-diff".into(), "WarpTickPatchV1::new(diff).apply_to_state disagrees with applying the diff directly".into()));
+    if pure_portal_growth(&a, &b) {
+        o.tags.push("pure-portal-growth".into());
     }
+    // (2) in-place semantics and the other public surfaces
+    check_inplace(&mut o, "apply", &a, &ops, &res, &c);
+    check_surfaces(&mut o, &a, patch.ops(), &res, &c);
     if patch.ops() != ops.as_slice() {
         o.fails.push(("C04.diff-not-canonical".into(), "diff_state output is changed by WarpTickPatchV1::new (not sorted / has duplicate keys)".into()));
     }
+    if patch.validate_digest().is_err() {
+        o.fails.push(("C04.patch-digest-invalid".into(), "validate_digest fails on a freshly built patch".into()));
+    }
+    // (3) identical states <=> empty diff (on dumps)
+    if ops.is_empty() != (state_str(&a) == want) {
+        o.fails.push(("C04.diff-empty-mismatch".into(), format!("diff is {} but the dumps are {}", if ops.is_empty() { "empty" } else { "non-empty" }, if state_str(&a) == want { "equal" } else { "different" })));
+    }
+    if well_formed(&a) && well_formed(&b) {
+        o.tags.push("wf-pair".into());
+    }
+    if hook::stores(&a).len() > 1 || hook::stores(&b).len() > 1 {
+        o.tags.push("multi-instance".into());
+    }
     for op in &ops {
-        o.tags.push(
-            match op {
-                WarpOp::OpenPortal { .. } => "op:OP",
-                WarpOp::UpsertWarpInstance { .. } => "op:UI",
-                WarpOp::DeleteWarpInstance { .. } => "op:DI",
-                WarpOp::UpsertNode { .. } => "op:UN",
-                WarpOp::DeleteNode { .. } => "op:DN",
-                WarpOp::UpsertEdge { .. } => "op:UE",
-                WarpOp::DeleteEdge { .. } => "op:DE",
-                WarpOp::SetAttachment { .. } => "op:SA",
-            }
-            .into(),
-        );
+        o.tags.push(op_tag(op).into());
     }
     o.tags.sort();
     o.tags.dedup();
@@ -128,21 +470,574 @@ fn classify(got: &str, want: &str) -> &'static str {
     }
 }
 
-fn gen_pair(rng: &mut Rng, tier: Tier) -> Vec<String> {
-    let n = if tier == Tier::Thorough { 6000 } else { 500 };
+// ---------------------------------------------------------------- pair generators
+
+const A1: u64 = 0xA1;
+
+fn atom(rng: &mut Rng) -> GAtt {
+    GAtt::Atom(0x70 + rng.below(2), (0..rng.below(3)).map(|_| *rng.pick(&[0u8, 1, 0xff])).collect())
+}
+
+/// Root warp with nodes 1..=k (k in 2..=3), two edges, a few atoms.
+fn base_root(rng: &mut Rng) -> GWarp {
+    let mut w = GWarp { id: A1, root: 1, ..Default::default() };
+    let k = rng.range(2, 3);
+    for i in 1..=k {
+        w.nodes.insert(i, 0x10 + rng.below(2));
+    }
+    w.edges.insert(0x21, (1, 2, 0x30));
+    if rng.chance(2, 3) {
+        w.edges.insert(0x22, (2, rng.range(1, k), 0x30 + rng.below(2)));
+    }
+    if rng.chance(1, 3) {
+        w.natts.insert(2, atom(rng));
+    }
+    if rng.chance(1, 3) {
+        w.eatts.insert(0x22, atom(rng));
+        if !w.edges.contains_key(&0x22) {
+            w.eatts.remove(&0x22);
+        }
+    }
+    w
+}
+
+fn small_body(rng: &mut Rng, id: u64, parent: Option<(bool, u64, u64)>) -> GWarp {
+    let mut w = GWarp { id, root: 1, parent, ..Default::default() };
+    w.nodes.insert(1, 0x10 + rng.below(2));
+    if rng.chance(2, 3) {
+        w.nodes.insert(2, 0x10);
+        w.edges.insert(0x21, (1, 2, 0x30));
+        if rng.chance(1, 3) {
+            w.eatts.insert(0x21, atom(rng));
+        }
+    }
+    if rng.chance(1, 3) {
+        w.natts.insert(1, atom(rng));
+    }
+    w
+}
+
+/// Hangs `child` off the slot (is_edge, pw, pi): sets the Descend attachment and the parent link.
+fn attach(st: &mut GState, mut child: GWarp, is_edge: bool, pw: u64, pi: u64) {
+    child.parent = Some((is_edge, pw, pi));
+    let p = st.warps.get_mut(&pw).unwrap();
+    if is_edge {
+        p.eatts.insert(pi, GAtt::Descend(child.id));
+    } else {
+        p.natts.insert(pi, GAtt::Descend(child.id));
+    }
+    st.warps.insert(child.id, child);
+}
+
+fn one(w: GWarp) -> GState {
+    let mut st = GState::default();
+    st.warps.insert(w.id, w);
+    st
+}
+
+const N_SCEN: u64 = 22;
+
+/// Hand-shaped adversarial pairs. Returns (a, b).
+fn scenario(rng: &mut Rng, k: u64) -> (GState, GState) {
+    let root = base_root(rng);
+    let a0 = one(root);
+    match k {
+        0 => {
+            // portal chain A1 -> A2 (node slot) -> A3 (edge slot) -> A4 (node slot), all new
+            let mut b = a0.clone();
+            attach(&mut b, small_body(rng, 0xA2, None), false, A1, 2);
+            let mut c2 = b.warps[&0xA2].clone();
+            c2.nodes.insert(2, 0x10);
+            c2.edges.insert(0x21, (1, 2, 0x30));
+            c2.eatts.remove(&0x21);
+            b.warps.insert(0xA2, c2);
+            attach(&mut b, small_body(rng, 0xA3, None), true, 0xA2, 0x21);
+            if rng.chance(1, 2) {
+                let mut c3 = b.warps[&0xA3].clone();
+                c3.natts.remove(&1);
+                b.warps.insert(0xA3, c3);
+                attach(&mut b, small_body(rng, 0xA4, None), false, 0xA3, 1);
+            }
+            (a0, b)
+        }
+        1 => {
+            // chain partially present in a, extended in b; and the reverse (chain torn down)
+            let mut a = a0.clone();
+            attach(&mut a, small_body(rng, 0xA2, None), true, A1, 0x21);
+            let mut b = a.clone();
+            let mut c2 = b.warps[&0xA2].clone();
+            c2.natts.remove(&1);
+            b.warps.insert(0xA2, c2);
+            attach(&mut b, small_body(rng, 0xA3, None), false, 0xA2, 1);
+            if rng.chance(1, 2) {
+                (a, b)
+            } else {
+                (b, a)
+            }
+        }
+        2 => {
+            // new instance whose parent owner (node or edge) is itself new in b
+            let mut b = a0.clone();
+            let w = b.warps.get_mut(&A1).unwrap();
+            if rng.chance(1, 2) {
+                w.nodes.insert(5, 0x11);
+                attach(&mut b, small_body(rng, 0xA2, None), false, A1, 5);
+            } else {
+                w.edges.insert(0x25, (1, 1, 0x31));
+                attach(&mut b, small_body(rng, 0xA2, None), true, A1, 0x25);
+            }
+            (a0, b)
+        }
+        3 => {
+            // parent-slot edge re-parented in the same pair, NEW child instance: the diff has OpenPortal +
+            // DeleteEdge + UpsertEdge and no SetAttachment for the edge (expected: PortalInvariantViolation)
+            let mut a = a0.clone();
+            {
+                let w = a.warps.get_mut(&A1).unwrap();
+                match rng.below(3) {
+                    0 => {
+                        w.eatts.insert(0x21, atom(rng));
+                    }
+                    _ => {
+                        w.eatts.remove(&0x21);
+                    }
+                }
+            }
+            let mut b = a.clone();
+            let w = b.warps.get_mut(&A1).unwrap();
+            let (f, to, ty) = w.edges[&0x21];
+            let others: Vec<u64> = w.nodes.keys().copied().filter(|n| *n != f).collect();
+            let nf = *rng.pick(&others);
+            let nto = if rng.chance(1, 3) { *rng.pick(&others) } else { to };
+            w.edges.insert(0x21, (nf, nto, ty + rng.below(2)));
+            attach(&mut b, small_body(rng, 0xA2, None), true, A1, 0x21);
+            if rng.chance(1, 4) {
+                // a second new child on a node slot of the same warp
+                b.warps.get_mut(&A1).unwrap().natts.remove(&1);
+                attach(&mut b, small_body(rng, 0xA3, None), false, A1, 1);
+            }
+            (a, b)
+        }
+        4 => {
+            // parent-slot edge re-parented, SURVIVING child instance (the edge keeps id + Descend)
+            let mut a = a0.clone();
+            attach(&mut a, small_body(rng, 0xA2, None), true, A1, 0x21);
+            let mut b = a.clone();
+            let w = b.warps.get_mut(&A1).unwrap();
+            let (_, to, ty) = w.edges[&0x21];
+            w.edges.insert(0x21, (2, to, ty + rng.below(2)));
+            if rng.chance(1, 3) {
+                // and the child changes too
+                b.warps.get_mut(&0xA2).unwrap().nodes.insert(3, 0x12);
+            }
+            (a, b)
+        }
+        5 => {
+            // instance created without a portal (parent None); and the reverse
+            let mut b = a0.clone();
+            b.warps.insert(0xA2, small_body(rng, 0xA2, None));
+            if rng.chance(1, 2) {
+                (a0, b)
+            } else {
+                (b, a0)
+            }
+        }
+        6 => {
+            // deleted instance: slot cleared / slot left dangling / slot replaced by an atom / owner deleted
+            let mut a = a0.clone();
+            let on_edge = rng.chance(1, 2);
+            if on_edge {
+                attach(&mut a, small_body(rng, 0xA2, None), true, A1, 0x21);
+            } else {
+                a.warps.get_mut(&A1).unwrap().nodes.insert(4, 0x10);
+                attach(&mut a, small_body(rng, 0xA2, None), false, A1, 4);
+            }
+            let mut b = a.clone();
+            b.warps.remove(&0xA2);
+            let w = b.warps.get_mut(&A1).unwrap();
+            match rng.below(4) {
+                0 => {
+                    if on_edge {
+                        w.eatts.remove(&0x21);
+                    } else {
+                        w.natts.remove(&4);
+                    }
+                }
+                1 => {} // dangling Descend stays
+                2 => {
+                    let v = atom(rng);
+                    if on_edge {
+                        w.eatts.insert(0x21, v);
+                    } else {
+                        w.natts.insert(4, v);
+                    }
+                }
+                _ => {
+                    if on_edge {
+                        w.edges.remove(&0x21);
+                        w.eatts.remove(&0x21);
+                    } else {
+                        w.nodes.remove(&4);
+                        w.natts.remove(&4);
+                    }
+                }
+            }
+            (a, b)
+        }
+        7 => {
+            // re-rooted surviving instance
+            let mut a = a0.clone();
+            let mut c = small_body(rng, 0xA2, None);
+            c.nodes.insert(2, 0x10);
+            attach(&mut a, c, false, A1, 2);
+            let mut b = a.clone();
+            b.warps.get_mut(&0xA2).unwrap().root = 2;
+            if rng.chance(1, 2) {
+                // the old root disappears
+                let c = b.warps.get_mut(&0xA2).unwrap();
+                c.nodes.remove(&1);
+                c.natts.remove(&1);
+                c.edges.clear();
+                c.eatts.clear();
+            }
+            if rng.chance(1, 4) {
+                // also re-root the ROOT instance
+                b.warps.get_mut(&A1).unwrap().root = 2;
+            }
+            (a, b)
+        }
+        8 => {
+            // re-parented surviving instance: node slot -> other node slot / edge slot; old slot cleared or atom
+            let mut a = a0.clone();
+            a.warps.get_mut(&A1).unwrap().natts.remove(&1);
+            attach(&mut a, small_body(rng, 0xA2, None), false, A1, 1);
+            let mut b = a.clone();
+            let w = b.warps.get_mut(&A1).unwrap();
+            w.natts.remove(&1);
+            if rng.chance(1, 3) {
+                w.natts.insert(1, atom(rng));
+            }
+            let c = b.warps[&0xA2].clone();
+            if rng.chance(1, 2) {
+                attach(&mut b, c, false, A1, 2);
+            } else {
+                attach(&mut b, c, true, A1, 0x21);
+            }
+            (a, b)
+        }
+        9 => {
+            // delete-then-recreate: same warp id, different content (and back)
+            let mut a = a0.clone();
+            attach(&mut a, small_body(rng, 0xA2, None), false, A1, 2);
+            let mut b = a.clone();
+            let mut c = GWarp { id: 0xA2, root: 1, parent: Some((false, A1, 2)), ..Default::default() };
+            c.nodes.insert(1, 0x12);
+            c.nodes.insert(3, 0x11);
+            c.edges.insert(0x21, (3, 1, 0x31));
+            c.edges.insert(0x23, (1, 3, 0x30));
+            c.eatts.insert(0x23, atom(rng));
+            c.natts.insert(3, atom(rng));
+            b.warps.insert(0xA2, c);
+            if rng.chance(1, 2) {
+                (a, b)
+            } else {
+                (b, a)
+            }
+        }
+        10 => {
+            // same node / edge ids with different content in the root warp, and back
+            let mut b = a0.clone();
+            let w = b.warps.get_mut(&A1).unwrap();
+            w.nodes.insert(2, 0x13);
+            w.natts.insert(2, atom(rng));
+            w.edges.insert(0x21, (2, 1, 0x31));
+            w.eatts.insert(0x21, atom(rng));
+            if rng.chance(1, 2) {
+                (a0, b)
+            } else {
+                (b, a0)
+            }
+        }
+        11 => {
+            // edge re-type / re-target / re-parent, with and without attachments
+            let mut a = a0.clone();
+            let with_att = rng.chance(1, 2);
+            if with_att {
+                a.warps.get_mut(&A1).unwrap().eatts.insert(0x21, atom(rng));
+            } else {
+                a.warps.get_mut(&A1).unwrap().eatts.remove(&0x21);
+            }
+            let mut b = a.clone();
+            let w = b.warps.get_mut(&A1).unwrap();
+            let (f, to, ty) = w.edges[&0x21];
+            match rng.below(5) {
+                0 => {
+                    w.edges.insert(0x21, (f, to, ty + 1));
+                }
+                1 => {
+                    w.edges.insert(0x21, (f, 1, ty));
+                }
+                2 => {
+                    w.edges.insert(0x21, (2, to, ty));
+                }
+                3 => {
+                    // re-parent and change the attachment
+                    w.edges.insert(0x21, (2, to, ty));
+                    w.eatts.insert(0x21, atom(rng));
+                }
+                _ => {
+                    // re-parent and clear the attachment
+                    w.edges.insert(0x21, (2, 1, ty + 1));
+                    w.eatts.remove(&0x21);
+                }
+            }
+            (a, b)
+        }
+        12 => {
+            // the same inside a child instance
+            let mut a = a0.clone();
+            let mut c = small_body(rng, 0xA2, None);
+            c.nodes.insert(2, 0x10);
+            c.edges.insert(0x21, (1, 2, 0x30));
+            c.eatts.insert(0x21, atom(rng));
+            attach(&mut a, c, false, A1, 2);
+            let mut b = a.clone();
+            let c = b.warps.get_mut(&0xA2).unwrap();
+            c.edges.insert(0x21, (2, 2, 0x30 + rng.below(2)));
+            if rng.chance(1, 3) {
+                c.eatts.remove(&0x21);
+            }
+            (a, b)
+        }
+        13 => {
+            // attachment kind flip Atom <-> Descend on the same slot (child appears / disappears)
+            let mut a = a0.clone();
+            let on_edge = rng.chance(1, 2);
+            if on_edge {
+                a.warps.get_mut(&A1).unwrap().eatts.insert(0x21, atom(rng));
+            } else {
+                a.warps.get_mut(&A1).unwrap().natts.insert(2, atom(rng));
+            }
+            let mut b = a.clone();
+            attach(&mut b, small_body(rng, 0xA2, None), on_edge, A1, if on_edge { 0x21 } else { 2 });
+            if rng.chance(1, 5) {
+                // flip without the instance: dangling portal
+                b.warps.remove(&0xA2);
+            }
+            if rng.chance(1, 2) {
+                (a, b)
+            } else {
+                (b, a)
+            }
+        }
+        14 => {
+            // node deletion whose incident edges survive in b (dangling) -> NodeNotIsolated
+            let mut b = a0.clone();
+            let w = b.warps.get_mut(&A1).unwrap();
+            w.nodes.remove(&2);
+            if rng.chance(1, 2) {
+                w.natts.remove(&2);
+            }
+            (a0, b)
+        }
+        15 => {
+            // dangling edges appear in b
+            let mut b = a0.clone();
+            let w = b.warps.get_mut(&A1).unwrap();
+            w.edges.insert(0x24, (rng.range(1, 2), 9, 0x30));
+            if rng.chance(1, 2) {
+                w.eatts.insert(0x24, atom(rng));
+            }
+            (a0, b)
+        }
+        16 => {
+            // two children swap their parent slots
+            let mut a = a0.clone();
+            a.warps.get_mut(&A1).unwrap().natts.clear();
+            attach(&mut a, small_body(rng, 0xA2, None), false, A1, 1);
+            attach(&mut a, small_body(rng, 0xA3, None), false, A1, 2);
+            let mut b = a.clone();
+            let (c2, c3) = (b.warps[&0xA2].clone(), b.warps[&0xA3].clone());
+            attach(&mut b, c2, false, A1, 2);
+            attach(&mut b, c3, false, A1, 1);
+            (a, b)
+        }
+        17 => {
+            // child replaced by another child on the same slot
+            let mut a = a0.clone();
+            attach(&mut a, small_body(rng, 0xA2, None), false, A1, 2);
+            let mut b = a.clone();
+            b.warps.remove(&0xA2);
+            attach(&mut b, small_body(rng, 0xA3, None), false, A1, 2);
+            (a, b)
+        }
+        18 => {
+            // delete a parent instance together with its whole sub-chain
+            let mut a = a0.clone();
+            let mut c2 = small_body(rng, 0xA2, None);
+            c2.natts.remove(&1);
+            attach(&mut a, c2, false, A1, 2);
+            attach(&mut a, small_body(rng, 0xA3, None), false, 0xA2, 1);
+            let mut b = a.clone();
+            b.warps.remove(&0xA2);
+            b.warps.remove(&0xA3);
+            b.warps.get_mut(&A1).unwrap().natts.remove(&2);
+            if rng.chance(1, 3) {
+                // orphan: the grandchild survives
+                b.warps.insert(0xA3, a.warps[&0xA3].clone());
+            }
+            (a, b)
+        }
+        19 => {
+            // portal owner node deleted together with the child; incident edges deleted as well
+            let mut a = a0.clone();
+            a.warps.get_mut(&A1).unwrap().nodes.insert(4, 0x10);
+            a.warps.get_mut(&A1).unwrap().edges.insert(0x23, (1, 4, 0x30));
+            attach(&mut a, small_body(rng, 0xA2, None), false, A1, 4);
+            let mut b = a.clone();
+            b.warps.remove(&0xA2);
+            let w = b.warps.get_mut(&A1).unwrap();
+            w.nodes.remove(&4);
+            w.natts.remove(&4);
+            w.edges.remove(&0x23);
+            w.eatts.remove(&0x23);
+            if rng.chance(1, 2) {
+                (a, b)
+            } else {
+                (b, a)
+            }
+        }
+        20 => {
+            // new child whose root node carries content / whose parent key points into another child
+            let mut b = a0.clone();
+            attach(&mut b, small_body(rng, 0xA2, None), false, A1, 2);
+            let mut c3 = small_body(rng, 0xA3, None);
+            c3.root = 2;
+            c3.nodes.insert(2, 0x11);
+            let mut c2 = b.warps[&0xA2].clone();
+            c2.natts.remove(&1);
+            b.warps.insert(0xA2, c2);
+            attach(&mut b, c3, false, 0xA2, 1);
+            (a0, b)
+        }
+        _ => {
+            // new instance with a parent key but the slot does not point to it (orphan / wrong target)
+            let mut b = a0.clone();
+            let mut c = small_body(rng, 0xA2, None);
+            c.parent = Some((rng.chance(1, 2), A1, if rng.chance(1, 2) { 2 } else { 0x21 }));
+            b.warps.insert(0xA2, c);
+            if rng.chance(1, 2) {
+                b.warps.get_mut(&A1).unwrap().natts.insert(2, GAtt::Descend(0xA3));
+            }
+            (a0, b)
+        }
+    }
+}
+
+/// Small enumerated universe for the exhaustive tier: one root warp A1 (nodes {1} or {1,2}), one edge id
+/// 0x21 (absent | 1->1 | 1->2 | 2->1 | 1->2 retyped) with attachment none/atom/descend, node-1 attachment
+/// none/atom/descend, child A2 absent / parent = node slot / parent = edge slot / no parent.
+fn universe() -> Vec<GState> {
     let mut out = Vec::new();
+    for two_nodes in [false, true] {
+        let edge_opts: Vec<Option<(u64, u64, u64)>> = if two_nodes {
+            vec![None, Some((1, 2, 0x30)), Some((2, 1, 0x30)), Some((1, 2, 0x31))]
+        } else {
+            vec![None, Some((1, 1, 0x30))]
+        };
+        for e in &edge_opts {
+            let eatt_opts: Vec<Option<GAtt>> = if e.is_some() {
+                vec![None, Some(GAtt::Atom(0x70, vec![1])), Some(GAtt::Descend(0xA2))]
+            } else {
+                vec![None]
+            };
+            for ea in &eatt_opts {
+                for na in [None, Some(GAtt::Atom(0x70, vec![1])), Some(GAtt::Descend(0xA2))] {
+                    for child in 0..4u64 {
+                        let mut w = GWarp { id: A1, root: 1, ..Default::default() };
+                        w.nodes.insert(1, 0x10);
+                        if two_nodes {
+                            w.nodes.insert(2, 0x10);
+                        }
+                        if let Some(rec) = e {
+                            w.edges.insert(0x21, *rec);
+                        }
+                        if let Some(v) = ea {
+                            w.eatts.insert(0x21, v.clone());
+                        }
+                        if let Some(v) = &na {
+                            w.natts.insert(1, v.clone());
+                        }
+                        let mut st = one(w);
+                        if child > 0 {
+                            let mut c = GWarp { id: 0xA2, root: 1, ..Default::default() };
+                            c.nodes.insert(1, 0x11);
+                            c.parent = match child {
+                                1 => Some((false, A1, 1)),
+                                2 => Some((true, A1, 0x21)),
+                                _ => None,
+                            };
+                            st.warps.insert(0xA2, c);
+                        }
+                        out.push(st);
+                    }
+                }
+            }
+        }
+    }
+    out
+}
+
+fn gen_pair(rng: &mut Rng, tier: Tier) -> Vec<String> {
+    let thorough = tier == Tier::Thorough;
+    let mut out = Vec::new();
+    // (1) hand-shaped scenarios, optionally with a little random noise on b
+    let per = if thorough { 60 } else { 16 };
+    for k in 0..N_SCEN {
+        // the re-parented parent-slot edge with a NEW child is the one sub-case outside the replay theorem
+        let per = if k == 3 { per * 5 } else { per };
+        for r in 0..per {
+            let (a, mut b) = scenario(rng, k);
+            if r % 4 == 3 {
+                let n = rng.range(1, 2);
+                b = mutate_state(rng, &b, n, false);
+            }
+            out.push(format!("{} {}", a.dump(), b.dump()));
+            if r % 5 == 4 {
+                // a -> b -> a
+                out.push(format!("{} {}", b.dump(), a.dump()));
+            }
+        }
+    }
+    // (2) random states / random edits (as before)
+    let n = if thorough { 4000 } else { 280 };
     for case in 0..n {
         let children = case % 3 != 0;
         let a = gen_state(rng, 4, 3, children);
         let b = match case % 5 {
-            0 => gen_state(rng, 4, 3, children),                 // unrelated state
-            1 => a.clone(),                                      // identical
+            0 => gen_state(rng, 4, 3, children), // unrelated state
+            1 => a.clone(),                      // identical
             _ => {
                 let k = rng.range(1, 4);
                 mutate_state(rng, &a, k, children) // a few edits
             }
         };
         out.push(format!("{} {}", a.dump(), b.dump()));
+    }
+    // (3) the enumerated universe: all ordered pairs (thorough) / a random sample (quick)
+    let u = universe();
+    if thorough {
+        for a in &u {
+            for b in &u {
+                out.push(format!("{} {}", a.dump(), b.dump()));
+            }
+        }
+    } else {
+        for _ in 0..220 {
+            let a = rng.pick(&u);
+            let b = rng.pick(&u);
+            out.push(format!("{} {}", a.dump(), b.dump()));
+        }
     }
     out
 }
@@ -155,10 +1050,8 @@ fn imp_apply(t: &mut Toks) -> Result<String, String> {
     if !t.done() {
         return Err("trailing tokens".into());
     }
-    Ok(match hook::apply_ops(&mut a, &ops) {
-        Ok(()) => format!("ok {}", state_str(&a)),
-        Err(e) => format!("err {}", err_class(&e)),
-    })
+    let res = hook::apply_ops(&mut a, &ops);
+    Ok(res_str(&res, &a))
 }
 
 fn oracle_apply(t: &mut Toks, _tier: Tier) -> Result<OracleOut, String> {
@@ -167,16 +1060,28 @@ fn oracle_apply(t: &mut Toks, _tier: Tier) -> Result<OracleOut, String> {
     let mut o = OracleOut::default();
     let mut c = a.clone();
     let r = hook::apply_ops(&mut c, &ops);
-    // determinism + "a failed application is never reported as success": re-run and compare
+    // determinism: re-run and compare
     let mut c2 = a.clone();
     let r2 = hook::apply_ops(&mut c2, &ops);
     if r.is_ok() != r2.is_ok() || state_str(&c) != state_str(&c2) {
         o.fails.push(("C04.apply-nondeterministic".into(), "two applications of the same ops differ".into()));
     }
-    match r {
+    check_inplace(&mut o, "apply", &a, &ops, &r, &c);
+    // the public surfaces run the CANONICAL form of the list
+    let canon = bare_patch(&ops);
+    let mut c3 = a.clone();
+    let r3 = hook::apply_ops(&mut c3, canon.ops());
+    check_inplace(&mut o, "apply", &a, canon.ops(), &r3, &c3);
+    check_surfaces(&mut o, &a, canon.ops(), &r3, &c3);
+    match &r {
         Ok(()) => o.tags.push("apply-ok".into()),
-        Err(e) => o.tags.push(format!("apply-err:{}", err_class(&e))),
+        Err(e) => o.tags.push(format!("apply-err:{}", err_class(e))),
     }
+    for op in &ops {
+        o.tags.push(op_tag(op).into());
+    }
+    o.tags.sort();
+    o.tags.dedup();
     o.nontrivial = ops.len() >= 2;
     Ok(o)
 }
@@ -230,15 +1135,749 @@ fn gen_op(rng: &mut Rng, st: &GState) -> String {
 }
 
 fn gen_apply(rng: &mut Rng, tier: Tier) -> Vec<String> {
-    let n = if tier == Tier::Thorough { 6000 } else { 500 };
+    let n = if tier == Tier::Thorough { 6000 } else { 450 };
     let mut out = Vec::new();
     for case in 0..n {
         let a = gen_state(rng, 4, 3, case % 2 == 0);
-        let k = rng.range(1, 5);
+        let k = if case % 7 == 0 { rng.range(5, 9) } else { rng.range(1, 5) };
         let mut line = format!("{} {k}", a.dump());
         for _ in 0..k {
             line.push(' ');
             line.push_str(&gen_op(rng, &a));
+        }
+        out.push(line);
+    }
+    // canonical diffs of scenario pairs with one op dropped / duplicated / moved: long runs of succeeding
+    // ops followed by a failure (partial state on error)
+    let m = if tier == Tier::Thorough { 1500 } else { 150 };
+    for i in 0..m {
+        let (a, b) = scenario(rng, i % N_SCEN);
+        let ad = a.dump();
+        let bd = b.dump();
+        let mut t = Toks::new(&ad);
+        let sa = match parse_state(&mut t) {
+            Ok(s) => s,
+            Err(_) => continue,
+        };
+        let mut t2 = Toks::new(&bd);
+        let sb = match parse_state(&mut t2) {
+            Ok(s) => s,
+            Err(_) => continue,
+        };
+        let mut ops: Vec<String> = hook::diff_state(&sa, &sb).iter().map(op_str).collect();
+        if ops.is_empty() {
+            continue;
+        }
+        match rng.below(4) {
+            0 => {
+                let j = rng.below(ops.len() as u64) as usize;
+                ops.remove(j);
+            }
+            1 => {
+                let j = rng.below(ops.len() as u64) as usize;
+                let x = ops.remove(j);
+                ops.push(x);
+            }
+            2 => ops.reverse(),
+            _ => {
+                let extra = gen_op(rng, &a);
+                let j = rng.below(ops.len() as u64 + 1) as usize;
+                ops.insert(j, extra);
+            }
+        }
+        out.push(format!("{} {} {}", a.dump(), ops.len(), ops.join(" ")));
+    }
+    out
+}
+
+// ------------------------------------------------------------------ C04.patch
+
+fn parse_slot(t: &mut Toks) -> Result<SlotId, String> {
+    match t.next()? {
+        "N" => Ok(SlotId::Node(NodeKey { warp_id: WarpId(t.id()?), local_id: NodeId(t.id()?) })),
+        "E" => Ok(SlotId::Edge(EdgeKey { warp_id: WarpId(t.id()?), local_id: warp_core::EdgeId(t.id()?) })),
+        "A" => Ok(SlotId::Attachment(parse_key(t)?)),
+        "P" => {
+            let w = WarpId(t.id()?);
+            Ok(SlotId::Port((w, t.num()?)))
+        }
+        x => Err(format!("bad slot tag {x}")),
+    }
+}
+
+fn parse_slots(t: &mut Toks) -> Result<Vec<SlotId>, String> {
+    let n = t.num()?;
+    (0..n).map(|_| parse_slot(t)).collect()
+}
+
+fn slot_str(s: &SlotId) -> String {
+    match s {
+        SlotId::Node(k) => format!("N {} {}", hex(&k.warp_id.0), hex(&k.local_id.0)),
+        SlotId::Edge(k) => format!("E {} {}", hex(&k.warp_id.0), hex(&k.local_id.0)),
+        SlotId::Attachment(k) => format!("A {}", key_str(k)),
+        SlotId::Port((w, p)) => format!("P {} {}", hex(&w.0), p),
+    }
+}
+
+fn slots_str(ss: &[SlotId]) -> String {
+    let mut s = format!("{}", ss.len());
+    for x in ss {
+        s.push(' ');
+        s.push_str(&slot_str(x));
+    }
+    s
+}
+
+struct PatchCase {
+    policy: u32,
+    rule_pack: [u8; 32],
+    status: TickCommitStatus,
+    ins: Vec<SlotId>,
+    outs: Vec<SlotId>,
+    ops: Vec<WarpOp>,
+}
+
+fn parse_patch_case(t: &mut Toks) -> Result<PatchCase, String> {
+    let policy = u32::try_from(t.num()?).map_err(|_| "policy out of range".to_string())?;
+    let rule_pack = t.id()?;
+    let status = match t.num()? {
+        1 => TickCommitStatus::Committed,
+        2 => TickCommitStatus::Aborted,
+        _ => return Err("bad status".into()),
+    };
+    let ins = parse_slots(t)?;
+    let outs = parse_slots(t)?;
+    let ops = parse_ops(t)?;
+    if !t.done() {
+        return Err("trailing tokens".into());
+    }
+    Ok(PatchCase { policy, rule_pack, status, ins, outs, ops })
+}
+
+fn build(c: &PatchCase) -> WarpTickPatchV1 {
+    WarpTickPatchV1::new(c.policy, c.rule_pack, c.status, c.ins.clone(), c.outs.clone(), c.ops.clone())
+}
+
+fn imp_patch(t: &mut Toks) -> Result<String, String> {
+    let c = parse_patch_case(t)?;
+    let p = build(&c);
+    Ok(format!("ops {} ; ins {} ; outs {} ; digest {}", ops_str(p.ops()), slots_str(p.in_slots()), slots_str(p.out_slots()), hex(&p.digest())))
+}
+
+fn flip(s: TickCommitStatus) -> TickCommitStatus {
+    match s {
+        TickCommitStatus::Committed => TickCommitStatus::Aborted,
+        TickCommitStatus::Aborted => TickCommitStatus::Committed,
+    }
+}
+
+fn oracle_patch(t: &mut Toks, tier: Tier) -> Result<OracleOut, String> {
+    let c = parse_patch_case(t)?;
+    let mut o = OracleOut::default();
+    let p = build(&c);
+    // canonical: strictly increasing sort keys, strictly increasing slots
+    if !p.ops().windows(2).all(|w| w[0].sort_key() < w[1].sort_key()) {
+        o.fails.push(("C04.patch-ops-not-canonical".into(), "ops of a new patch are not strictly increasing by sort_key".into()));
+    }
+    if !p.in_slots().windows(2).all(|w| w[0] < w[1]) || !p.out_slots().windows(2).all(|w| w[0] < w[1]) {
+        o.fails.push(("C04.patch-slots-not-canonical".into(), "slots of a new patch are not strictly increasing".into()));
+    }
+    // last wins: for every key the surviving op is the LAST input op with that key; nothing invented
+    for op in p.ops() {
+        let last = c.ops.iter().rev().find(|x| x.sort_key() == op.sort_key());
+        if last != Some(op) {
+            o.fails.push(("C04.patch-new-not-last-wins".into(), format!("surviving op {} is not the last input op with its key", op_str(op))));
+        }
+    }
+    for op in &c.ops {
+        if !p.ops().iter().any(|x| x.sort_key() == op.sort_key()) {
+            o.fails.push(("C04.patch-new-loses-key".into(), format!("no op with the key of {} survives", op_str(op))));
+        }
+    }
+    // idempotent
+    let p2 = WarpTickPatchV1::new(p.policy_id(), p.rule_pack_id(), p.commit_status(), p.in_slots().to_vec(), p.out_slots().to_vec(), p.ops().to_vec());
+    if p2 != p {
+        o.fails.push(("C04.patch-new-not-idempotent".into(), "new(patch fields) differs from the patch".into()));
+    }
+    if p.validate_digest().is_err() {
+        o.fails.push(("C04.patch-digest-invalid".into(), "validate_digest fails on a freshly built patch".into()));
+    }
+    // order independence: interleave the per-key groups (relative order inside a group kept), shuffle slots
+    let mut rng = Rng::new(c.ops.len() as u64 * 131 + c.ins.len() as u64 * 7 + u64::from(c.policy));
+    let rounds = if tier == Tier::Thorough { 6 } else { 3 };
+    for _ in 0..rounds {
+        let mut groups: Vec<std::collections::VecDeque<WarpOp>> = Vec::new();
+        for op in &c.ops {
+            match groups.iter_mut().find(|g| g[0].sort_key() == op.sort_key()) {
+                Some(g) => g.push_back(op.clone()),
+                None => groups.push(std::collections::VecDeque::from(vec![op.clone()])),
+            }
+        }
+        let mut ops2 = Vec::new();
+        while !groups.is_empty() {
+            let j = rng.below(groups.len() as u64) as usize;
+            ops2.push(groups[j].pop_front().unwrap());
+            if groups[j].is_empty() {
+                groups.swap_remove(j);
+            }
+        }
+        let mut ins2 = c.ins.clone();
+        let mut outs2 = c.outs.clone();
+        if !ins2.is_empty() {
+            ins2.push(ins2[rng.below(ins2.len() as u64) as usize]);
+        }
+        if !outs2.is_empty() {
+            outs2.push(outs2[rng.below(outs2.len() as u64) as usize]);
+        }
+        rng.shuffle(&mut ins2);
+        rng.shuffle(&mut outs2);
+        let q = WarpTickPatchV1::new(c.policy, c.rule_pack, c.status, ins2, outs2, ops2);
+        if q != p {
+            o.fails.push(("C04.patch-new-order-dependent".into(), "same ops/slots in another order (equal-key groups kept in order) give a different patch".into()));
+            break;
+        }
+    }
+    // digest sensitivity: any single field changed => different digest
+    let d = p.digest();
+    let mut variants: Vec<(&str, WarpTickPatchV1)> = vec![
+        ("policy", WarpTickPatchV1::new(c.policy ^ 1, c.rule_pack, c.status, c.ins.clone(), c.outs.clone(), c.ops.clone())),
+        ("policy-hi", WarpTickPatchV1::new(c.policy ^ 0x8000_0000, c.rule_pack, c.status, c.ins.clone(), c.outs.clone(), c.ops.clone())),
+        ("status", WarpTickPatchV1::new(c.policy, c.rule_pack, flip(c.status), c.ins.clone(), c.outs.clone(), c.ops.clone())),
+        ("rule-pack", {
+            let mut rp = c.rule_pack;
+            rp[(c.ops.len() * 5 + 3) % 32] ^= 0x10;
+            WarpTickPatchV1::new(c.policy, rp, c.status, c.ins.clone(), c.outs.clone(), c.ops.clone())
+        }),
+    ];
+    if !p.ops().is_empty() {
+        let j = rng.below(p.ops().len() as u64) as usize;
+        let mut ops = p.ops().to_vec();
+        ops.remove(j);
+        variants.push(("drop-op", WarpTickPatchV1::new(c.policy, c.rule_pack, c.status, c.ins.clone(), c.outs.clone(), ops)));
+    }
+    if !p.in_slots().is_empty() {
+        let mut ins = p.in_slots().to_vec();
+        ins.remove(rng.below(ins.len() as u64) as usize);
+        variants.push(("drop-in-slot", WarpTickPatchV1::new(c.policy, c.rule_pack, c.status, ins, c.outs.clone(), c.ops.clone())));
+    }
+    if !p.out_slots().is_empty() {
+        let mut outs = p.out_slots().to_vec();
+        outs.remove(rng.below(outs.len() as u64) as usize);
+        variants.push(("drop-out-slot", WarpTickPatchV1::new(c.policy, c.rule_pack, c.status, c.ins.clone(), outs, c.ops.clone())));
+    }
+    if p.in_slots() != p.out_slots() {
+        variants.push(("swap-in-out", WarpTickPatchV1::new(c.policy, c.rule_pack, c.status, c.outs.clone(), c.ins.clone(), c.ops.clone())));
+    }
+    {
+        // one extra op with a fresh key
+        let mut ops = c.ops.clone();
+        ops.push(WarpOp::DeleteWarpInstance { warp_id: WarpId(small_id(0xDEAD)) });
+        variants.push(("add-op", WarpTickPatchV1::new(c.policy, c.rule_pack, c.status, c.ins.clone(), c.outs.clone(), ops)));
+    }
+    for (what, v) in variants {
+        if v.digest() == d {
+            o.fails.push((format!("C04.patch-digest-insensitive.{what}"), format!("changing {what} leaves the patch digest unchanged")));
+        }
+    }
+    let dup = p.ops().len() < c.ops.len();
+    let sorted = c.ops.windows(2).all(|w| w[0].sort_key() <= w[1].sort_key());
+    if dup {
+        o.tags.push("dup-keys".into());
+    }
+    if !sorted {
+        o.tags.push("unsorted-input".into());
+    }
+    if p.in_slots().len() < c.ins.len() || p.out_slots().len() < c.outs.len() {
+        o.tags.push("dup-slots".into());
+    }
+    for op in &c.ops {
+        o.tags.push(op_tag(op).into());
+    }
+    o.tags.sort();
+    o.tags.dedup();
+    o.nontrivial = c.ops.len() >= 2;
+    Ok(o)
+}
+
+fn gen_slot(rng: &mut Rng) -> String {
+    let w = 0xA1 + rng.below(2);
+    match rng.below(5) {
+        0 => format!("N {} {}", sid(w), sid(rng.range(1, 3))),
+        1 => format!("E {} {}", sid(w), sid(0x20 + rng.range(1, 2))),
+        2 => format!("P {} {}", sid(w), *rng.pick(&[0u64, 1, 2, 255, 256, u64::MAX])),
+        _ => {
+            let tag = *rng.pick(&["na", "na", "eb", "eb", "nb", "ea"]);
+            let local = if tag.starts_with('n') { rng.range(1, 3) } else { 0x20 + rng.range(1, 2) };
+            format!("A {tag} {} {}", sid(w), sid(local))
+        }
+    }
+}
+
+fn gen_patch(rng: &mut Rng, tier: Tier) -> Vec<String> {
+    let n = if tier == Tier::Thorough { 5000 } else { 420 };
+    let mut out = Vec::new();
+    for case in 0..n {
+        let st = gen_state(rng, 3, 2, case % 2 == 0);
+        let policy = match rng.below(5) {
+            0 => 0,
+            1 => 1,
+            2 => u64::from(u32::MAX),
+            3 => 0x0100_0000,
+            _ => rng.below(1 << 32),
+        };
+        let rp = match rng.below(3) {
+            0 => sid(0),
+            1 => sid(rng.below(3)),
+            _ => hex(&rng.bytes(32)),
+        };
+        let status = rng.range(1, 2);
+        let slots = |rng: &mut Rng| -> String {
+            let k = if rng.chance(1, 3) { 0 } else { rng.range(1, 6) };
+            let mut s = format!("{k}");
+            for _ in 0..k {
+                s.push(' ');
+                s.push_str(&gen_slot(rng));
+            }
+            s
+        };
+        let ins = slots(rng);
+        let outs = slots(rng);
+        let k = match case % 6 {
+            0 => 0,
+            1 => 1,
+            _ => rng.range(2, 12),
+        };
+        let mut ops: Vec<String> = (0..k).map(|_| gen_op(rng, &st)).collect();
+        // explicit duplicates of a key with a different payload, away from the original
+        if !ops.is_empty() && rng.chance(1, 2) {
+            let j = rng.below(ops.len() as u64) as usize;
+            let toks: Vec<&str> = ops[j].split(' ').collect();
+            let dup = match toks[0] {
+                "UN" => format!("UN {} {} {}", toks[1], toks[2], sid(0x1F)),
+                "UE" => format!("UE {} {} {} {} {}", toks[1], toks[2], toks[3], sid(9), sid(0x3F)),
+                "SA" => format!("SA {} {} {} a {} 0102", toks[1], toks[2], toks[3], sid(0x7F)),
+                "UI" => format!("UI {} {} -", toks[1], sid(7)),
+                "OP" => format!("OP {} {} {} {} {} R", toks[1], toks[2], toks[3], sid(0xAF), sid(2)),
+                _ => ops[j].clone(),
+            };
+            let pos = rng.below(ops.len() as u64 + 1) as usize;
+            ops.insert(pos, dup);
+        }
+        if case % 9 == 4 {
+            // already canonical input
+            let mut parsed: Vec<WarpOp> = Vec::new();
+            for s in &ops {
+                let mut t = Toks::new(s);
+                if let Ok(op) = parse_op(&mut t) {
+                    parsed.push(op);
+                }
+            }
+            ops = bare_patch(&parsed).ops().iter().map(op_str).collect();
+        }
+        out.push(format!("{policy} {rp} {status} {ins} {outs} {} {}", ops.len(), ops.join(" ")).trim_end().to_string());
+    }
+    out
+}
+
+// ------------------------------------------------------------------ C04.tick  (same case grammar as C01.tick)
+
+#[derive(Clone)]
+struct Cand {
+    rule: &'static str,
+    warp: WarpId,
+    scope: NodeId,
+}
+
+struct TickCase {
+    state: WarpState,
+    root: NodeKey,
+    kind: SchedulerKind,
+    workers: usize,
+    cands: Vec<Cand>,
+}
+
+fn parse_tick_case(t: &mut Toks) -> Result<TickCase, String> {
+    let state = parse_state(t)?;
+    let root = NodeKey { warp_id: WarpId(t.id()?), local_id: NodeId(t.id()?) };
+    let kind = match t.next()? {
+        "radix" => SchedulerKind::Radix,
+        "legacy" => SchedulerKind::Legacy,
+        x => return Err(format!("bad scheduler kind {x}")),
+    };
+    let workers = t.num()? as usize;
+    let n = t.num()?;
+    let mut cands = Vec::new();
+    for _ in 0..n {
+        let rule = match t.next()? {
+            "a" => RULE_A,
+            "b" => RULE_B,
+            x => return Err(format!("bad rule {x}")),
+        };
+        let warp = WarpId(t.id()?);
+        let scope = NodeId(t.id()?);
+        let shash = t.id()?;
+        let real = scope_hash(&interp::rule_id(rule), &NodeKey { warp_id: warp, local_id: scope });
+        if real != shash {
+            return Err("scope hash in the case line is not the real one".into());
+        }
+        cands.push(Cand { rule, warp, scope });
+    }
+    if !t.done() {
+        return Err("trailing tokens".into());
+    }
+    Ok(TickCase { state, root, kind, workers, cands })
+}
+
+fn class(s: &str) -> String {
+    s.chars().map(|c| if c.is_ascii_alphanumeric() || c == '_' || c == '-' || c == ':' { c } else { '_' }).take(90).collect()
+}
+
+enum TickRes {
+    /// text as C01 prints it (`err …` / `panic …`), engine state after the failure, ledger length, snapshot parents
+    Fail(String, Option<(WarpState, usize, bool)>),
+    Ok { post: WarpState, patch: WarpTickPatchV1, snap_root: [u8; 32], snap_patch_digest: [u8; 32], jump: Result<WarpState, String>, ledger: usize },
+}
+
+fn run_tick(c: &TickCase) -> TickRes {
+    let mut engine = match EngineBuilder::from_state(c.state.clone(), c.root).scheduler(c.kind).workers(c.workers).build() {
+        Ok(e) => e,
+        Err(e) => return TickRes::Fail(format!("err build:{}", class(&format!("{e:?}"))), None),
+    };
+    engine.register_rule(interp::rule(RULE_A)).unwrap();
+    engine.register_rule(interp::rule(RULE_B)).unwrap();
+    let tx = engine.begin();
+    for cd in &c.cands {
+        match engine.apply_in_warp(tx, cd.warp, cd.rule, &cd.scope, &[]) {
+            Ok(ApplyResult::Applied | ApplyResult::NoMatch) => {}
+            Err(e) => return TickRes::Fail(format!("err apply:{}", class(&format!("{e:?}"))), None),
+        }
+    }
+    let res = std::panic::catch_unwind(std::panic::AssertUnwindSafe(|| engine.commit_with_receipt(tx)));
+    match res {
+        Err(p) => {
+            let what = if p.downcast_ref::<warp_core::FootprintViolation>().is_some() {
+                "footprint-violation".to_string()
+            } else if let Some(s) = p.downcast_ref::<&str>() {
+                class(s)
+            } else if let Some(s) = p.downcast_ref::<String>() {
+                class(s)
+            } else {
+                "other".to_string()
+            };
+            TickRes::Fail(format!("panic {what}"), None)
+        }
+        Ok(Err(e)) => {
+            let after = engine.state().clone();
+            let ledger = engine.get_ledger().len();
+            // `snapshot()` hashes the (possibly half-applied) state: it may panic on a dangling portal
+            let has_parent = std::panic::catch_unwind(std::panic::AssertUnwindSafe(|| !engine.snapshot().parents.is_empty())).unwrap_or(false);
+            TickRes::Fail(format!("err commit:{}", class(&format!("{e:?}"))), Some((after, ledger, has_parent)))
+        }
+        Ok(Ok((snap, _receipt, patch))) => {
+            let post = engine.state().clone();
+            let ledger = engine.get_ledger().len();
+            let jump = match engine.jump_to_tick(0) {
+                Ok(()) => Ok(engine.state().clone()),
+                Err(e) => Err(class(&format!("{e:?}"))),
+            };
+            TickRes::Ok { post, patch, snap_root: snap.state_root, snap_patch_digest: snap.patch_digest, jump, ledger }
+        }
+    }
+}
+
+fn imp_tick(t: &mut Toks) -> Result<String, String> {
+    let c = parse_tick_case(t)?;
+    Ok(match run_tick(&c) {
+        TickRes::Fail(text, _) => format!("tick {text}"),
+        TickRes::Ok { post, patch, .. } => {
+            let mut replay = c.state.clone();
+            let res = patch.apply_to_state(&mut replay);
+            format!(
+                "tick ok ; patch {} ; digest {} ; post {} ; replay {}",
+                ops_str(patch.ops()),
+                hex(&bare_patch(patch.ops()).digest()),
+                state_str(&post),
+                res_str(&res, &replay)
+            )
+        }
+    })
+}
+
+fn oracle_tick(t: &mut Toks, _tier: Tier) -> Result<OracleOut, String> {
+    let c = parse_tick_case(t)?;
+    let mut o = OracleOut::default();
+    let pre = state_str(&c.state);
+    match run_tick(&c) {
+        TickRes::Fail(text, after) => {
+            o.tags.push(text.split(|ch| ch == '_' || ch == ' ').take(2).collect::<Vec<_>>().join(":"));
+            if let Some((st, ledger, has_parent)) = after {
+                // commit returned Err: nothing success-like may be observable
+                if ledger != 0 || has_parent {
+                    o.fails.push(("C04.atomicity.commit.advanced-on-error".into(), format!("commit_with_receipt returned Err ({text}) but the ledger/snapshot chain advanced")));
+                }
+                o.tags.push(if state_str(&st) == pre { "engine-clean-on-error".into() } else { "engine-partial-on-error".into() });
+            }
+        }
+        TickRes::Ok { post, patch, snap_root, snap_patch_digest, jump, ledger } => {
+            let want = state_str(&post);
+            // the emitted patch replays on a clone of the pre-state to the engine's post-state
+            let mut replay_err: Option<&'static str> = None;
+            let mut replay = c.state.clone();
+            match patch.apply_to_state(&mut replay) {
+                Ok(()) => {
+                    let got = state_str(&replay);
+                    if got != want {
+                        o.fails.push((format!("C04.tick-replay-differs.{}", classify(&got, &want)), format!("tick patch applied to the pre-state does not reproduce the post-state: got [{}] want [{}]", clip(&got), clip(&want))));
+                    } else if root_of(&replay, &c.root) != root_of(&post, &c.root) {
+                        o.fails.push(("C04.tick-replay-differs.state-root".into(), "equal dumps, different state roots".into()));
+                    }
+                    if root_of(&replay, &c.root) != Some(snap_root) {
+                        o.fails.push(("C04.tick-replay-differs.snapshot-root".into(), "state root of the replayed state differs from the snapshot's state_root".into()));
+                    }
+                }
+                Err(e) => {
+                    replay_err = Some(err_class(&e));
+                    o.fails.push((format!("C04.tick-replay-error:{}", err_class(&e)), format!("tick patch {} fails to apply to the pre-state", clip(&ops_str(patch.ops())))));
+                }
+            }
+            // the patch is exactly the diff, is canonical, and carries a valid digest bound into the snapshot
+            if patch.ops() != hook::diff_state(&c.state, &post).as_slice() {
+                o.fails.push(("C04.tick-patch-not-diff".into(), "tick patch ops differ from diff_state(pre, post)".into()));
+            }
+            if patch.validate_digest().is_err() || patch.digest() != snap_patch_digest {
+                o.fails.push(("C04.tick-patch-digest".into(), "tick patch digest invalid or not the snapshot's patch_digest".into()));
+            }
+            let again = WarpTickPatchV1::new(patch.policy_id(), patch.rule_pack_id(), patch.commit_status(), patch.in_slots().to_vec(), patch.out_slots().to_vec(), patch.ops().to_vec());
+            if again != patch {
+                o.fails.push(("C04.patch-new-not-idempotent".into(), "rebuilding the tick patch from its fields changes it".into()));
+            }
+            if ledger != 1 {
+                o.fails.push(("C04.tick-ledger".into(), format!("ledger length {ledger} after one commit")));
+            }
+            // Engine::jump_to_tick(0) = initial state + patch 0
+            match jump {
+                Ok(st) => {
+                    if state_str(&st) != want {
+                        o.fails.push(("C04.jump-replay-differs".into(), "jump_to_tick(0) does not reproduce the post-state of tick 0".into()));
+                    }
+                }
+                Err(e) => match replay_err {
+                    // same root cause as the failed replay above: one finding, two observables
+                    Some(cl) => o.fails.push((format!("C04.tick-replay-error:{cl}.jump_to_tick"), format!("Engine::jump_to_tick(0) fails right after the commit that recorded tick 0 ({e})"))),
+                    None => o.fails.push((format!("C04.jump-replay-error:{e}"), "jump_to_tick(0) fails although the recorded patch replays on the pre-state".into())),
+                },
+            }
+            for op in patch.ops() {
+                o.tags.push(op_tag(op).into());
+            }
+            o.tags.push("tick-ok".into());
+            o.nontrivial = patch.ops().len() >= 2;
+        }
+    }
+    if hook::stores(&c.state).len() > 1 {
+        o.tags.push("multi-instance".into());
+    }
+    o.tags.sort();
+    o.tags.dedup();
+    Ok(o)
+}
+
+/// Programs made of unconditional emits, one per op template, with honest footprints
+/// (attribution as `op_write_targets`): exercises every op kind a non-system rule may emit.
+fn gen_tick_program(rng: &mut Rng, w: &GWarp) -> String {
+    let wid = w.id;
+    let mut nw: Vec<u64> = vec![];
+    let mut ew: Vec<u64> = vec![];
+    let mut aw: Vec<(bool, u64)> = vec![];
+    let mut body: Vec<String> = vec![];
+    let mut used: Vec<String> = vec![];
+    let nkeys: Vec<u64> = w.nodes.keys().copied().filter(|k| *k < 0x1000).collect();
+    let ekeys: Vec<u64> = w.edges.keys().copied().collect();
+    let n_templates = rng.range(1, 3);
+    for _ in 0..n_templates {
+        // each template: list of (key, op text, node writes, edge writes, attachment writes)
+        let mut t: Vec<(String, String, Vec<u64>, Vec<u64>, Vec<(bool, u64)>)> = Vec::new();
+        let un = |n: u64, ty: u64| (format!("n{n}"), format!("UN {} {} {}", sid(wid), sid(n), sid(ty)), vec![n], vec![], vec![]);
+        let dn = |n: u64| (format!("n{n}"), format!("DN {} {}", sid(wid), sid(n)), vec![n], vec![], vec![(false, n)]);
+        let ue = |e: u64, f: u64, to: u64, ty: u64| (format!("e{e}"), format!("UE {} {} {} {} {}", sid(wid), sid(e), sid(f), sid(to), sid(ty)), vec![f], vec![e], vec![]);
+        let de = |e: u64, f: u64| (format!("de{e}"), format!("DE {} {} {}", sid(wid), sid(f), sid(e)), vec![f], vec![e], vec![(true, e)]);
+        let san = |n: u64, v: String| (format!("an{n}"), format!("SA na {} {} {v}", sid(wid), sid(n)), vec![], vec![], vec![(false, n)]);
+        let sae = |e: u64, v: String| (format!("ae{e}"), format!("SA eb {} {} {v}", sid(wid), sid(e)), vec![], vec![], vec![(true, e)]);
+        let aval = |rng: &mut Rng| {
+            let ty = 0x70 + rng.below(2);
+            let len = 1 + rng.below(2) as usize;
+            format!("a {} {}", sid(ty), hex(&rng.bytes(len)))
+        };
+        match rng.below(12) {
+            0 => {
+                // add a node, maybe with an attachment
+                let n = rng.range(5, 8);
+                t.push(un(n, 0x11));
+                if rng.chance(1, 2) {
+                    t.push(san(n, aval(rng)));
+                }
+            }
+            1 => {
+                // retype an existing node
+                if let Some(n) = nkeys.first() {
+                    t.push(un(*n, 0x13));
+                }
+            }
+            2 => {
+                // delete a node together with all its incident edges
+                if nkeys.len() > 1 {
+                    let n = *rng.pick(&nkeys[1..]);
+                    if !matches!(w.natts.get(&n), Some(GAtt::Descend(_))) {
+                        let mut ok = true;
+                        for (e, (f, to, _)) in &w.edges {
+                            if *f == n || *to == n {
+                                if matches!(w.eatts.get(e), Some(GAtt::Descend(_))) {
+                                    ok = false;
+                                }
+                                t.push(de(*e, *f));
+                            }
+                        }
+                        if ok {
+                            t.push(dn(n));
+                        } else {
+                            t.clear();
+                        }
+                    }
+                }
+            }
+            3 => {
+                // delete a node but NOT its incident edges (NodeNotIsolated when it has any)
+                if nkeys.len() > 1 {
+                    let n = *rng.pick(&nkeys[1..]);
+                    if !matches!(w.natts.get(&n), Some(GAtt::Descend(_))) {
+                        t.push(dn(n));
+                    }
+                }
+            }
+            4 => {
+                // add an edge (fresh id), maybe with an attachment
+                if !nkeys.is_empty() {
+                    let e = 0x20 + rng.range(5, 8);
+                    t.push(ue(e, *rng.pick(&nkeys), *rng.pick(&nkeys), 0x30 + rng.below(2)));
+                    if rng.chance(1, 2) {
+                        t.push(sae(e, aval(rng)));
+                    }
+                }
+            }
+            5 => {
+                // delete an edge
+                if !ekeys.is_empty() {
+                    let e = *rng.pick(&ekeys);
+                    if !matches!(w.eatts.get(&e), Some(GAtt::Descend(_))) {
+                        t.push(de(e, w.edges[&e].0));
+                    }
+                }
+            }
+            6 => {
+                // retarget / retype an edge (same source)
+                if !ekeys.is_empty() && !nkeys.is_empty() {
+                    let e = *rng.pick(&ekeys);
+                    let (f, _, ty) = w.edges[&e];
+                    t.push(ue(e, f, *rng.pick(&nkeys), ty + rng.below(2)));
+                }
+            }
+            7 => {
+                // RE-PARENT an edge: same id, other source (attachment, if any, must survive)
+                if !ekeys.is_empty() && nkeys.len() > 1 {
+                    let e = *rng.pick(&ekeys);
+                    let (f, to, ty) = w.edges[&e];
+                    let nf = *rng.pick(&nkeys);
+                    if nf != f {
+                        t.push(ue(e, nf, to, ty));
+                        if rng.chance(1, 3) && !matches!(w.eatts.get(&e), Some(GAtt::Descend(_))) {
+                            t.push(sae(e, if rng.chance(1, 2) { "-".into() } else { aval(rng) }));
+                        }
+                    }
+                }
+            }
+            8 => {
+                // delete an edge and re-create the same id under another source in the same tick
+                if !ekeys.is_empty() && nkeys.len() > 1 {
+                    let e = *rng.pick(&ekeys);
+                    let (f, to, ty) = w.edges[&e];
+                    let nf = *rng.pick(&nkeys);
+                    if !matches!(w.eatts.get(&e), Some(GAtt::Descend(_))) {
+                        t.push(de(e, f));
+                        t.push(ue(e, nf, to, ty + 1));
+                    }
+                }
+            }
+            9 => {
+                // set / clear a node attachment
+                if !nkeys.is_empty() {
+                    let n = *rng.pick(&nkeys);
+                    if !matches!(w.natts.get(&n), Some(GAtt::Descend(_))) {
+                        t.push(san(n, if rng.chance(1, 3) { "-".into() } else { aval(rng) }));
+                    }
+                }
+            }
+            10 => {
+                // set / clear an edge attachment
+                if !ekeys.is_empty() {
+                    let e = *rng.pick(&ekeys);
+                    if !matches!(w.eatts.get(&e), Some(GAtt::Descend(_))) {
+                        t.push(sae(e, if rng.chance(1, 3) { "-".into() } else { aval(rng) }));
+                    }
+                }
+            }
+            _ => {
+                // rarely: a Descend written as a plain attachment (dangling portal -> the apply inside commit fails)
+                if rng.chance(1, 3) && !nkeys.is_empty() {
+                    let n = *rng.pick(&nkeys);
+                    t.push(un(rng.range(5, 8), 0x10));
+                    t.push(san(n, format!("d {}", sid(0xA9))));
+                } else if !nkeys.is_empty() {
+                    let n = *rng.pick(&nkeys);
+                    if !matches!(w.natts.get(&n), Some(GAtt::Descend(_))) {
+                        t.push(san(n, aval(rng)));
+                    }
+                }
+            }
+        }
+        if t.iter().any(|x| used.contains(&x.0)) {
+            continue;
+        }
+        for (k, text, wn, we, wa) in t {
+            used.push(k);
+            body.push(format!("E {text}"));
+            nw.extend(wn);
+            ew.extend(we);
+            aw.extend(wa);
+        }
+    }
+    format!("P {} {} {}", interp::fp_text(&[], &nw, &[], &ew, &[], &aw), body.len(), body.join(" "))
+}
+
+fn gen_tick(rng: &mut Rng, tier: Tier) -> Vec<String> {
+    let n = if tier == Tier::Thorough { 1500 } else { 160 };
+    let mut out = Vec::new();
+    for case in 0..n {
+        let mut st = gen_state(rng, 4, 4, case % 2 == 0);
+        let wids: Vec<u64> = st.warps.keys().copied().collect();
+        let ncand = rng.range(1, 3);
+        let mut cands: Vec<(char, u64, u64)> = Vec::new();
+        for j in 0..ncand {
+            let wid = *rng.pick(&wids);
+            let scope = 0x1000 + j;
+            let prog = gen_tick_program(rng, &st.warps[&wid]);
+            let w = st.warps.get_mut(&wid).unwrap();
+            w.nodes.insert(scope, 0x98);
+            w.natts.insert(scope, GAtt::Atom(interp::PROG_TY, prog.into_bytes()));
+            cands.push((if rng.chance(1, 5) { 'b' } else { 'a' }, wid, scope));
+        }
+        rng.shuffle(&mut cands);
+        let kind = if case % 3 == 0 { "legacy" } else { "radix" };
+        let workers = *rng.pick(&[1u64, 2, 4]);
+        let mut line = format!("{} {} {} {kind} {workers} {}", st.dump(), sid(0xA1), sid(1), cands.len());
+        for (r, w, s) in &cands {
+            let rule = if *r == 'a' { RULE_A } else { RULE_B };
+            let h = scope_hash(&interp::rule_id(rule), &NodeKey { warp_id: WarpId(small_id(*w)), local_id: NodeId(small_id(*s)) });
+            line.push_str(&format!(" {r} {} {} {}", sid(*w), sid(*s), hex(&h)));
         }
         out.push(line);
     }
